@@ -108,6 +108,13 @@ def run(ctx):
     for mi in range(n_mesh):
         nodes, faces = gen.lattice_mesh(rng, w=rng.randint(1, 3), h=rng.randint(1, 3)) if mi else \
             gen.lattice_mesh(rng, w=2, h=2, variety=False, drop=False)
+        if mi == 1:
+            # node numbers beyond 16 bits: a large node table of which this patch uses the two ends (the numbers 0, 1, 2 and
+            # 65536 + ...), so that pairs such as (0, 65539) and (1, 65539) occur
+            big = [(0, 0)] * 65542
+            for k, xy in {0: (0, 0), 1: (8, 0), 2: (16, 0), 65539: (4, 8), 65540: (12, 8), 65541: (20, 8)}.items():
+                big[k] = xy
+            nodes, faces = big, [[0, 1, 65539], [1, 65540, 65539], [1, 2, 65540], [2, 65541, 65540]]
         encs = list(itertools.product([0, 1], ['nan', 'attr'], [False, True]))
         subsets = [set(c) for r in range(5) for c in itertools.combinations(OPTIONAL, r)]
         if quick:
@@ -116,7 +123,11 @@ def run(ctx):
             combos = [(e, rng.choice(subsets)) for e in encs] + [(rng.choice(encs), s) for s in subsets]
         ref_fn = None
         for (si, fill, tr), sup in combos:
-            d = gen.ugrid(rng, mesh=(nodes, faces), start_index=si, fill=fill, transposed=tr, supplied=sup, invalid=False)
+            # one-based meshes: sometimes the optional tables are zero-based and carry no start_index attribute of their own
+            bare = tuple(sorted(sup)) if (si == 1 and sup and rng.random() < 0.35) else ()
+            d = gen.ugrid(rng, mesh=(nodes, faces), start_index=si, fill=fill, transposed=tr, supplied=sup, invalid=False,
+                          bare_zero_based=bare)
+            ctx.count(f'optional tables zero-based without start_index:{bool(bare)}')
             s = d.spec
             label = s['label']
             ems = d.ds.ems
@@ -180,7 +191,7 @@ def run(ctx):
                         ok = False
                         break
                     da = d.ds[VARNAME[name]]
-                    e_model.append(f'(to_index_array {encoding_literal(da, si, tr)} {to_coq(raw_cells(da))})')
+                    e_model.append(f'(to_index_array {encoding_literal(da, 0 if name in bare else si, tr)} {to_coq(raw_cells(da))})')
                     obs.append(r[1])
             if not ok:
                 continue
